@@ -12,11 +12,12 @@ import DemesVerif.Ops.Spec
 import DemesVerif.Ops.Builder
 import DemesVerif.Ops.Records
 import DemesVerif.Ops.RecordsClose
+import DemesVerif.Ops.Accessors
 namespace Demes.Ops
 open Lean
 
 def dispatchers : List (String → Json → Option Json) :=
-  [Core.dispatch?, IO.dispatch?, Handles.dispatch?, Cli.dispatch?, Cost.dispatch?, Ms.dispatch?, Heap.dispatch?, SpecOps.dispatch?, Builder.dispatch?, Records.dispatch?, RecordsClose.dispatch?]
+  [Core.dispatch?, IO.dispatch?, Handles.dispatch?, Cli.dispatch?, Cost.dispatch?, Ms.dispatch?, Heap.dispatch?, SpecOps.dispatch?, Builder.dispatch?, Records.dispatch?, RecordsClose.dispatch?, Accessors.dispatch?]
 
 def dispatch (j : Json) : Json :=
   match j.getObjValAs? String "op" with
